@@ -50,6 +50,9 @@ def observer_calls(v, acc, depth=0):
     v = strip(v)
     if depth > 18 or not isinstance(v, tuple) or not v:
         return
+    if whole_byte_view(v) is not None:
+        # the bytes of the whole slice, in order: a view of the content (as `as_byte_slice` is), not of where it lives
+        return
     if v[0] == 'call' and len(v) > 3 and any(derives_from_self(a) for a in v[3]):
         acc.append(v)
     for x in v[1:]:
